@@ -7,7 +7,7 @@ From GV Require Import C09.StopModel.
 
 Definition done_ (tr : list ev) (c : nat) : Prop := In (EPostE c) tr.
 
-(* everything the invariant says about one actor [c] in state [x] under trace [tr] *)
+(* everything the unguarded invariant says about one actor [c] in state [x] under trace [tr] *)
 Record pa (tr : list ev) (c : nat) (x : actor) : Prop := {
   pa_stop1 : sp x <> SIdle -> stopping x = true;
   pa_stop2 : stopping x = true -> sp x <> SIdle;
@@ -15,8 +15,6 @@ Record pa (tr : list ev) (c : nat) (x : actor) : Prop := {
   pa_k     : started x = true -> running x = false -> done_ tr c;
   pa_n     : done_ tr c -> running x = false /\ started x = true;
   pa_p     : forall p d, sp x = SKids p -> In d (map fst p) -> In d (snap x);
-  pa_b     : forall d, sp x = SPost -> In d (snap x) -> done_ tr d;
-  pa_j     : forall d, done_ tr c -> In d (snap x) -> done_ tr d;
   pa_pre   : In (EPre c) tr -> started x = true;
   pa_postb : In (EPostB c) tr -> sp x = SPost \/ done_ tr c;
   pa_chk   : ph x = Some Checked -> started x = false;
@@ -25,9 +23,12 @@ Record pa (tr : list ev) (c : nat) (x : actor) : Prop := {
   pa_run_started : running x = true -> started x = true;
 }.
 
-(* the clause that needs the race-freedom guard (or the repaired disown test) *)
-Definition pa_a (tr : list ev) (x : actor) : Prop :=
-  forall p d, sp x = SKids p -> In d (snap x) -> In d (map fst p) \/ done_ tr d.
+(* the clauses that need the race-freedom guard (or the repaired disown test) *)
+Record pg (tr : list ev) (c : nat) (x : actor) : Prop := {
+  pg_a : forall p d, sp x = SKids p -> In d (snap x) -> In d (map fst p) \/ done_ tr d;
+  pg_b : forall d, sp x = SPost -> In d (snap x) -> done_ tr d;
+  pg_j : forall d, done_ tr c -> In d (snap x) -> done_ tr d;
+}.
 
 Record inv (s : st) : Prop := {
   inv_pa : forall c, pa (trace s) c (acts s c);
@@ -35,7 +36,7 @@ Record inv (s : st) : Prop := {
   inv_nodup : NoDup (trace s);
 }.
 
-Definition inv_a (s : st) : Prop := forall a, pa_a (trace s) (acts s a).
+Definition inv_g (s : st) : Prop := forall a, pg (trace s) a (acts s a).
 
 (* ---------------------------------------------------------------- basics *)
 Lemma upd_same f i a : upd f i a i = a.
@@ -45,31 +46,781 @@ Proof. intros H. unfold upd. destruct (Nat.eqb_spec j i); [contradiction|reflexi
 
 Definition ev_actor (e : ev) : nat := match e with EPre c | EPostB c | EPostE c => c end.
 
-(* an event of another actor does not disturb [pa] of an unchanged actor *)
+Lemma done_mono tr e c : ev_actor e <> c -> (done_ (e :: tr) c <-> done_ tr c).
+Proof. intros Hne. unfold done_. simpl. split; [intros [->|]; [simpl in Hne; congruence|assumption]|auto]. Qed.
+
+(* an event of another actor does not disturb [pa]/[pg] of an unchanged actor *)
 Lemma pa_mono tr e c x : ev_actor e <> c -> pa tr c x -> pa (e :: tr) c x.
 Proof.
-  intros Hne [H1 H2 H3 H4 H5 H6 H7 H8 H9 H10 H11 H12 H13 H14].
-  assert (Hd : done_ (e :: tr) c <-> done_ tr c).
-  { unfold done_. simpl. split; [intros [->|]; [simpl in Hne; congruence|assumption]|auto]. }
+  intros Hne [H1 H2 H3 H4 H5 H6 H9 H10 H11 H12 H13 H14].
+  pose proof (done_mono tr e c Hne) as Hd.
   split; auto.
   - intros. right. apply H4; assumption.
   - intros Hdn. apply H5, Hd, Hdn.
-  - intros d Hs Hin. right. eapply H7; eauto.
-  - intros d Hdn Hin. right. apply (H8 d); [apply Hd, Hdn|assumption].
   - simpl. intros [->|Hin]; [simpl in Hne; congruence|auto].
   - simpl. intros [->|Hin]; [simpl in Hne; congruence|].
     destruct (H10 Hin); [left|right; right]; assumption.
 Qed.
 
-Lemma pa_a_mono tr e x : pa_a tr x -> pa_a (e :: tr) x.
-Proof. intros H p d Hs Hin. destruct (H p d Hs Hin); [left|right; right]; assumption. Qed.
+Lemma pg_mono tr e c x : ev_actor e <> c -> pg tr c x -> pg (e :: tr) c x.
+Proof.
+  intros Hne [Ha Hb Hj]. pose proof (done_mono tr e c Hne) as Hd. split.
+  - intros p d Hs Hin. destruct (Ha p d Hs Hin); [left|right; right]; assumption.
+  - intros d Hs Hin. right. eapply Hb; eauto.
+  - intros d Hdn Hin. right. apply (Hj d); [apply Hd, Hdn|assumption].
+Qed.
 
-Lemma inv_init : inv init /\ inv_a init.
+Lemma inv_init : inv init /\ inv_g init.
 Proof.
   split; [split|].
   - intros c. simpl. destruct (Nat.eqb c 0); split; simpl; try congruence; try tauto; try discriminate;
       unfold done_; simpl; try tauto; intros; try discriminate; try tauto.
   - intros a d. simpl. destruct (Nat.eqb a 0); simpl; tauto.
   - constructor.
-  - intros a p d. simpl. destruct (Nat.eqb a 0); simpl; discriminate.
+  - intros a. simpl. destruct (Nat.eqb a 0); split; simpl; try discriminate; try tauto.
+Qed.
+
+(* ---------------------------------------------------------------- update helpers *)
+Lemma inv_upd1 s a x' tm :
+  inv s -> pa (trace s) a x' ->
+  (started (acts s a) = true -> started x' = true) ->
+  (forall d, In d (snap x') -> In d (snap (acts s a)) \/ started (acts s d) = true) ->
+  inv (St (upd (acts s) a x') (trace s) tm).
+Proof.
+  intros [Hpa Hsn Hnd] Hx Hst Hsnap. split; simpl.
+  - intros c. destruct (Nat.eq_dec c a) as [->|Hne]; [now rewrite upd_same|rewrite upd_other by assumption; apply Hpa].
+  - intros a0 d Hin.
+    assert (Hd : started (acts s d) = true).
+    { destruct (Nat.eq_dec a0 a) as [->|Hne].
+      - rewrite upd_same in Hin. destruct (Hsnap d Hin) as [H|H]; [eapply Hsn; eauto|assumption].
+      - rewrite upd_other in Hin by assumption. eapply Hsn; eauto. }
+    destruct (Nat.eq_dec d a) as [->|Hne]; [rewrite upd_same; auto|now rewrite upd_other by assumption].
+  - assumption.
+Qed.
+
+Lemma inv_upd1_ev s a x' e tm :
+  inv s -> ev_actor e = a -> ~ In e (trace s) -> pa (e :: trace s) a x' ->
+  (started (acts s a) = true -> started x' = true) ->
+  (forall d, In d (snap x') -> In d (snap (acts s a)) \/ started (acts s d) = true) ->
+  inv (St (upd (acts s) a x') (e :: trace s) tm).
+Proof.
+  intros [Hpa Hsn Hnd] He Hnin Hx Hst Hsnap. split; simpl.
+  - intros c. destruct (Nat.eq_dec c a) as [->|Hne]; [now rewrite upd_same|].
+    rewrite upd_other by assumption. apply pa_mono; [congruence|apply Hpa].
+  - intros a0 d Hin.
+    assert (Hd : started (acts s d) = true).
+    { destruct (Nat.eq_dec a0 a) as [->|Hne].
+      - rewrite upd_same in Hin. destruct (Hsnap d Hin) as [H|H]; [eapply Hsn; eauto|assumption].
+      - rewrite upd_other in Hin by assumption. eapply Hsn; eauto. }
+    destruct (Nat.eq_dec d a) as [->|Hne]; [rewrite upd_same; auto|now rewrite upd_other by assumption].
+  - constructor; assumption.
+Qed.
+
+Lemma inv_g_upd1 s a x' tm :
+  inv_g s -> pg (trace s) a x' -> inv_g (St (upd (acts s) a x') (trace s) tm).
+Proof.
+  intros H Hx a0. simpl. destruct (Nat.eq_dec a0 a) as [->|Hne]; [now rewrite upd_same|].
+  rewrite upd_other by assumption. apply H.
+Qed.
+
+Lemma inv_g_upd1_ev s a x' e tm :
+  inv_g s -> ev_actor e = a -> pg (e :: trace s) a x' -> inv_g (St (upd (acts s) a x') (e :: trace s) tm).
+Proof.
+  intros H He Hx a0. simpl. destruct (Nat.eq_dec a0 a) as [->|Hne]; [now rewrite upd_same|].
+  rewrite upd_other by assumption. apply pg_mono; [congruence|apply H].
+Qed.
+
+(* fields the invariant looks at *)
+Definition same_core (x y : actor) : Prop :=
+  running y = running x /\ stopping y = stopping x /\ started y = started x /\ sp y = sp x /\
+  ph y = ph x /\ snap y = snap x /\ (reg y = true -> reg x = true).
+
+Lemma same_core_refl x : same_core x x.
+Proof. unfold same_core; tauto. Qed.
+Lemma same_core_trans x y z : same_core x y -> same_core y z -> same_core x z.
+Proof. unfold same_core; intros (?&?&?&?&?&?&?) (?&?&?&?&?&?&?); repeat split; try congruence; auto. Qed.
+
+Lemma pa_core tr c x y : same_core x y -> pa tr c x -> pa tr c y.
+Proof.
+  intros (Hr & Hs & Hst & Hsp & Hph & Hsn & Hreg) [H1 H2 H3 H4 H5 H6 H9 H10 H11 H12 H13 H14].
+  split; rewrite ?Hr, ?Hs, ?Hst, ?Hsp, ?Hph, ?Hsn; auto.
+Qed.
+Lemma pg_core tr c x y : same_core x y -> pg tr c x -> pg tr c y.
+Proof.
+  intros (Hr & Hs & Hst & Hsp & Hph & Hsn & Hreg) [Ha Hb Hj].
+  split; rewrite ?Hsp, ?Hsn; auto.
+Qed.
+
+Lemma inv_core s A' tm :
+  inv s -> (forall c, same_core (acts s c) (A' c)) -> inv (St A' (trace s) tm).
+Proof.
+  intros [Hpa Hsn Hnd] Hc. split; simpl.
+  - intros c. eapply pa_core; [apply Hc|apply Hpa].
+  - intros a d Hin. destruct (Hc a) as (_&_&_&_&_&Hs&_). destruct (Hc d) as (_&_&Hst&_).
+    rewrite Hst. rewrite Hs in Hin. eapply Hsn; eauto.
+  - assumption.
+Qed.
+Lemma inv_g_core s A' tm :
+  inv_g s -> (forall c, same_core (acts s c) (A' c)) -> inv_g (St A' (trace s) tm).
+Proof. intros H Hc a. simpl. eapply pg_core; [apply Hc|apply H]. Qed.
+
+Lemma unreg_all_core l : forall f c, same_core (f c) (unreg_all f l c).
+Proof.
+  induction l as [|i l IH]; intros f c; simpl; [apply same_core_refl|].
+  eapply same_core_trans; [|apply IH].
+  unfold upd. destruct (Nat.eqb c i) eqn:E; [|apply same_core_refl].
+  apply Nat.eqb_eq in E. subst. unfold same_core, unreg; simpl. repeat split; auto; discriminate.
+Qed.
+
+(* ---------------------------------------------------------------- pending lists *)
+Lemma pend_get_in c p x : pend_get c p = Some x -> In c (map fst p).
+Proof.
+  induction p as [|[d y] p IH]; simpl; [discriminate|].
+  destruct (Nat.eqb_spec d c); [auto|]. intros H. right. auto.
+Qed.
+Lemma pend_set_keys c x p : map fst (pend_set c x p) = map fst p.
+Proof.
+  unfold pend_set. rewrite map_map. apply map_ext_in. intros [d y] _. simpl.
+  destruct (Nat.eqb_spec d c); simpl; congruence.
+Qed.
+Lemma pend_remove_keys c p d : In d (map fst (pend_remove c p)) <-> In d (map fst p) /\ d <> c.
+Proof.
+  unfold pend_remove. rewrite !in_map_iff. split.
+  - intros ([d' y] & <- & Hin). apply filter_In in Hin as [Hin Hne]. simpl in *.
+    split; [exists (d', y); auto|]. destruct (Nat.eqb_spec d' c); [discriminate|assumption].
+  - intros (([d' y] & <- & Hin) & Hne). exists (d', y). split; [reflexivity|].
+    apply filter_In. split; [assumption|]. simpl in *. destruct (Nat.eqb_spec d' c); [contradiction|reflexivity].
+Qed.
+Lemma todo_keys cs : map fst (map (fun c : nat => (c, PTodo)) cs) = cs.
+Proof. rewrite map_map. simpl. apply map_id. Qed.
+
+Lemma sp_idle_dec x : {sp x = SIdle} + {sp x <> SIdle}.
+Proof. destruct (sp x); [left; reflexivity|right; discriminate..]. Qed.
+
+(* ---------------------------------------------------------------- one case per label *)
+Section Steps.
+Variable ws : bool.
+
+Ltac old H := destruct H as [O1 O2 O3 O4 O5 O6 O7 O8 O9 O10 O11 O12].
+
+Lemma step_StopBegin s a s' :
+  inv s -> inv_g s -> step ws s (LStopBegin a) = Some s' -> inv s' /\ inv_g s'.
+Proof.
+  intros I G. unfold step. destruct (sp (acts s a)) eqn:Esp; try discriminate.
+  destruct (running (acts s a)) eqn:Er; [|discriminate]. intros [= <-].
+  pose proof (inv_pa _ I a) as Pa. old Pa.
+  assert (Hnd : ~ done_ (trace s) a) by (intros Hd; apply O5 in Hd; destruct Hd; congruence).
+  split.
+  - apply inv_upd1; simpl; auto. split; simpl; intros; try discriminate; try congruence; auto; try contradiction.
+    destruct (O8 H) as [?|?]; [congruence|contradiction].
+
+  - apply inv_g_upd1; auto. split; simpl; intros; try discriminate; try contradiction.
+Qed.
+
+Lemma step_StopNoop s a s' :
+  inv s -> inv_g s -> step ws s (LStopNoop a) = Some s' -> inv s' /\ inv_g s'.
+Proof.
+  intros I G. unfold step. destruct (sp (acts s a)); try discriminate.
+  destruct (running (acts s a)); [discriminate|]. intros [= <-]. auto.
+Qed.
+
+Lemma step_Snapshot s a s' :
+  inv s -> inv_g s -> step ws s (LSnapshot a) = Some s' -> inv s' /\ inv_g s'.
+Proof.
+  intros I G. unfold step. destruct (sp (acts s a)) eqn:Esp; try discriminate. intros [= <-].
+  pose proof (inv_pa _ I a) as Pa. old Pa.
+  assert (Hr : running (acts s a) = true) by (apply O3; congruence).
+  assert (Hnd : ~ done_ (trace s) a) by (intros Hd; apply O5 in Hd; destruct Hd; congruence).
+  split.
+  - apply inv_upd1; simpl; auto.
+    + split; simpl; intros; try discriminate; try congruence; auto; try contradiction.
+      * apply O1; congruence.
+      * injection H as <-. now rewrite todo_keys in H0.
+      * destruct (O8 H) as [?|?]; [congruence|contradiction].
+    + intros d Hin. right. unfold children in Hin. apply filter_In in Hin as [_ Hreg].
+      apply (pa_reg _ _ _ (inv_pa _ I d)), Hreg.
+  - apply inv_g_upd1; auto. split; simpl; intros; try discriminate; try contradiction.
+    injection H as <-. left. now rewrite todo_keys.
+Qed.
+
+Lemma step_DisownTest s a c s' :
+  inv s -> inv_g s -> ws = true \/ step_ok s (LDisownTest a c) = true ->
+  step ws s (LDisownTest a c) = Some s' -> inv s' /\ inv_g s'.
+Proof.
+  intros I G Hguard. unfold step. destruct (sp (acts s a)) as [| |p|] eqn:Esp; try discriminate.
+  destruct (pend_get c p) as [[|]|] eqn:Eg; try discriminate. intros [= <-].
+  pose proof (inv_pa _ I a) as Pa. old Pa.
+  pose proof (pend_get_in _ _ _ Eg) as Hcp.
+  set (call := is_running (acts s c) || ws && stopping (acts s c)).
+  set (p' := if call then pend_set c PWait p else pend_remove c p).
+  assert (Hkeys : forall d, In d (map fst p') -> In d (map fst p)).
+  { intros d. unfold p'. destruct call; [now rewrite pend_set_keys|]. intros H. now apply pend_remove_keys in H. }
+  split.
+  - apply inv_upd1; simpl; auto.
+    split; simpl; intros; try discriminate; auto.
+    + apply O1; congruence.
+    + apply O3; congruence.
+    + injection H as <-. eapply O6; eauto.
+    + destruct (O8 H) as [?|?]; [congruence|auto].
+  - apply inv_g_upd1; auto. pose proof (G a) as [Ga Gb Gj].
+    split; simpl; intros; try discriminate.
+    + injection H as <-. destruct (Ga p d Esp H0) as [Hin|Hd]; [|auto].
+      unfold p'. destruct call eqn:Ecall; [left; now rewrite pend_set_keys|].
+      destruct (Nat.eq_dec d c) as [->|Hne]; [|left; apply pend_remove_keys; auto].
+      right.
+      (* the child was not called: it is not running and its stop is not in flight *)
+      pose proof (inv_pa _ I c) as Pc.
+      assert (Hst : started (acts s c) = true) by (eapply inv_snap_started; eauto).
+      unfold call, is_running in Ecall.
+      apply orb_false_iff in Ecall as [E1 E2].
+      assert (Hidle : sp (acts s c) = SIdle).
+      { destruct Hguard as [->|Hok].
+        - simpl in E2. destruct (sp_idle_dec (acts s c)) as [|Hn]; [assumption|].
+          rewrite (pa_stop1 _ _ _ Pc Hn) in E2. discriminate.
+        - simpl in Hok. destruct (sp (acts s c)); congruence. }
+      assert (Hns : stopping (acts s c) = false).
+      { destruct (stopping (acts s c)) eqn:Es; [|reflexivity]. exfalso. apply (pa_stop2 _ _ _ Pc); auto. }
+      rewrite Hns in E1. simpl in E1. rewrite andb_true_r in E1.
+      apply (pa_k _ _ _ Pc); assumption.
+    + apply (Gj d); assumption.
+Qed.
+
+Lemma step_DisownDone s a c s' :
+  inv s -> inv_g s -> step ws s (LDisownDone a c) = Some s' -> inv s' /\ inv_g s'.
+Proof.
+  intros I G. unfold step. destruct (sp (acts s a)) as [| |p|] eqn:Esp; try discriminate.
+  destruct (pend_get c p) as [[|]|] eqn:Eg; try discriminate.
+  destruct (sp (acts s c)) eqn:Espc; try discriminate.
+  destruct (running (acts s c)) eqn:Erc; [discriminate|]. intros [= <-].
+  pose proof (inv_pa _ I a) as Pa. old Pa.
+  pose proof (pend_get_in _ _ _ Eg) as Hcp.
+  split.
+  - apply inv_upd1; simpl; auto.
+    split; simpl; intros; try discriminate; auto.
+    + apply O1; congruence.
+    + apply O3; congruence.
+    + injection H as <-. apply pend_remove_keys in H0 as [H0 _]. eapply O6; eauto.
+    + destruct (O8 H) as [?|?]; [congruence|auto].
+  - apply inv_g_upd1; auto. pose proof (G a) as [Ga Gb Gj].
+    split; simpl; intros; try discriminate.
+    + injection H as <-. destruct (Ga p d Esp H0) as [Hin|Hd]; [|auto].
+      destruct (Nat.eq_dec d c) as [->|Hne]; [|left; apply pend_remove_keys; auto].
+      right. pose proof (inv_pa _ I c) as Pc.
+      apply (pa_k _ _ _ Pc); [eapply inv_snap_started; eauto|assumption].
+    + apply (Gj d); assumption.
+Qed.
+
+Lemma step_PostBegin s a s' :
+  inv s -> inv_g s -> step ws s (LPostBegin a) = Some s' -> inv s' /\ inv_g s'.
+Proof.
+  intros I G. unfold step. destruct (sp (acts s a)) as [| |[|]|] eqn:Esp; try discriminate. intros [= <-].
+  pose proof (inv_pa _ I a) as Pa. old Pa.
+  assert (Hr : running (acts s a) = true) by (apply O3; congruence).
+  assert (Hnd : ~ done_ (trace s) a) by (intros Hd; apply O5 in Hd; destruct Hd; congruence).
+  assert (Hnb : ~ In (EPostB a) (trace s)) by (intros Hb; destruct (O8 Hb); [congruence|contradiction]).
+  assert (Hnd' : ~ done_ (EPostB a :: trace s) a) by (unfold done_; simpl; intros [?|?]; [discriminate|contradiction]).
+  split.
+  - apply inv_upd1_ev; simpl; auto.
+    split; simpl; intros; try discriminate; try contradiction; auto.
+    + apply O1; congruence.
+    + congruence.
+  - apply inv_g_upd1_ev; auto. pose proof (G a) as [Ga Gb Gj].
+    split; simpl; intros; try discriminate; try contradiction.
+    destruct (Ga [] d Esp H0) as [[]|Hd]. right. exact Hd.
+Qed.
+
+Lemma step_PostEnd s a s' :
+  inv s -> inv_g s -> step ws s (LPostEnd a) = Some s' -> inv s' /\ inv_g s'.
+Proof.
+  intros I G. unfold step. destruct (sp (acts s a)) eqn:Esp; try discriminate. intros [= <-].
+  pose proof (inv_pa _ I a) as Pa. old Pa.
+  assert (Hr : running (acts s a) = true) by (apply O3; congruence).
+  assert (Hnd : ~ done_ (trace s) a) by (intros Hd; apply O5 in Hd; destruct Hd; congruence).
+  assert (Hd' : done_ (EPostE a :: trace s) a) by (left; reflexivity).
+  split.
+  - apply inv_upd1_ev; simpl; auto.
+    split; simpl; intros; try discriminate; try congruence; auto.
+  - apply inv_g_upd1_ev; auto. pose proof (G a) as [Ga Gb Gj].
+    split; simpl; intros; try discriminate.
+    right. apply Gb; assumption.
+Qed.
+
+Lemma step_SpawnCheck s p c s' :
+  inv s -> inv_g s -> step ws s (LSpawnCheck p c) = Some s' -> inv s' /\ inv_g s'.
+Proof.
+  intros I G. unfold step. destruct (par (acts s c)) eqn:Epar; try discriminate.
+  destruct (ph (acts s c)) eqn:Eph; try discriminate.
+  destruct (is_running (acts s p) && negb (started (acts s c)) && negb (c =? 0) && negb (c =? p)) eqn:E; [|discriminate].
+  intros [= <-].
+  apply andb_true_iff in E as [E Ecp]. apply andb_true_iff in E as [E Ec0]. apply andb_true_iff in E as [Erp Est].
+  apply negb_true_iff in Est. apply negb_true_iff, Nat.eqb_neq in Ecp.
+  pose proof (inv_pa _ I c) as Pc. old Pc.
+  assert (Hnd : ~ done_ (trace s) c) by (intros Hd; apply O5 in Hd; destruct Hd; congruence).
+  set (xc := Actor false false false SIdle (Some p) (Some Checked) 0 false [] []).
+  set (s1 := St (upd (acts s) c xc) (trace s) (term s)).
+  assert (I1 : inv s1).
+  { apply inv_upd1; simpl; auto; [|congruence].
+    split; simpl; intros; try discriminate; try congruence; try contradiction; auto.
+    + apply O7 in H; congruence.
+    + destruct (O8 H) as [Hs|?]; [|contradiction].
+      assert (running (acts s c) = true) by (apply O3; congruence). rewrite O12 in Est; congruence. }
+  assert (G1 : inv_g s1).
+  { apply inv_g_upd1; auto. split; simpl; intros; try discriminate; try contradiction. }
+  assert (Hcore : forall c0, same_core (acts s1 c0) (upd (upd (acts s) c xc) p (set_spawning (acts s p) (S (spawning (acts s p)))) c0)).
+  { intros c0. simpl. destruct (Nat.eq_dec c0 p) as [->|Hne].
+    - rewrite upd_same, upd_other by auto. unfold same_core; simpl; tauto.
+    - rewrite (upd_other _ p) by assumption. apply same_core_refl. }
+  split; [apply (inv_core s1 _ _ I1 Hcore)|apply (inv_g_core s1 _ _ G1 Hcore)].
+Qed.
+
+Lemma step_SpawnInit s c s' :
+  inv s -> inv_g s -> step ws s (LSpawnInit c) = Some s' -> inv s' /\ inv_g s'.
+Proof.
+  intros I G. unfold step. destruct (ph (acts s c)) as [[|]|] eqn:Eph; try discriminate. intros [= <-].
+  pose proof (inv_pa _ I c) as Pc. old Pc.
+  assert (Est : started (acts s c) = false) by auto.
+  assert (Hnd : ~ done_ (trace s) c) by (intros Hd; apply O5 in Hd; destruct Hd; congruence).
+  assert (Hnp : ~ In (EPre c) (trace s)) by (intros Hp; apply O7 in Hp; congruence).
+  assert (Hnd' : ~ done_ (EPre c :: trace s) c) by (unfold done_; simpl; intros [?|?]; [discriminate|contradiction]).
+  split.
+  - apply inv_upd1_ev; simpl; auto.
+    split; simpl; intros; try discriminate; try congruence; try contradiction; auto.
+
+    destruct H as [?|H]; [discriminate|]. destruct (O8 H) as [Hs|?]; [|contradiction].
+    assert (running (acts s c) = true) by (apply O3; congruence). rewrite O12 in Est; congruence.
+  - apply inv_g_upd1_ev; auto. split; simpl; intros; try discriminate; try contradiction.
+Qed.
+
+Lemma step_SpawnAdd s c s' :
+  inv s -> inv_g s -> step ws s (LSpawnAdd c) = Some s' -> inv s' /\ inv_g s'.
+Proof.
+  intros I G. unfold step. destruct (ph (acts s c)) as [[|]|] eqn:Eph; try discriminate.
+  destruct (par (acts s c)) as [p|] eqn:Epar; try discriminate. intros [= <-].
+  pose proof (inv_pa _ I c) as Pc. old Pc. cbv zeta. rewrite ?Epar.
+  set (xc := Actor (running (acts s c)) (stopping (acts s c)) (started (acts s c)) (sp (acts s c)) (Some p) None
+                   (spawning (acts s c)) (reg (acts s p)) (kids (acts s c)) (snap (acts s c))).
+  set (s1 := St (upd (acts s) c xc) (trace s) (term s)).
+  assert (I1 : inv s1).
+  { apply inv_upd1; simpl; auto. split; simpl; intros; try discriminate; eauto. }
+  assert (G1 : inv_g s1).
+  { apply inv_g_upd1; auto. pose proof (G c) as [Ga Gb Gj]. split; simpl; auto. }
+  match goal with |- inv (St ?A _ _) /\ _ => assert (Hcore : forall c0, same_core (acts s1 c0) (A c0)) end.
+  { intros c0. simpl. destruct (Nat.eq_dec c0 p) as [->|Hne].
+    - rewrite upd_same. unfold same_core; simpl; repeat split; auto.
+    - rewrite (upd_other _ p) by assumption. apply same_core_refl. }
+  split; [apply (inv_core s1 _ _ I1 Hcore)|apply (inv_g_core s1 _ _ G1 Hcore)].
+Qed.
+
+Lemma step_Reap s a s' :
+  inv s -> inv_g s -> step ws s (LReap a) = Some s' -> inv s' /\ inv_g s'.
+Proof.
+  intros I G. unfold step. destruct (term s) as [|a' rest]; [discriminate|].
+  destruct (a =? a'); [|discriminate]. intros [= <-].
+  match goal with |- inv (St ?A _ _) /\ _ => assert (Hcore : forall c0, same_core (acts s c0) (A c0)) end.
+  { intros c0. destruct (reg (acts s a)); [|apply same_core_refl].
+    set (A1 := unreg_all (acts s) _).
+    assert (H1 : same_core (acts s c0) (A1 c0)) by apply unreg_all_core.
+    destruct (par (acts s a)) as [p|]; [|exact H1].
+    destruct (Nat.eq_dec c0 p) as [->|Hne].
+    - rewrite upd_same. eapply same_core_trans; [exact H1|]. unfold same_core; simpl; tauto.
+    - now rewrite upd_other by assumption. }
+  split; [apply (inv_core s _ _ I Hcore)|apply (inv_g_core s _ _ G Hcore)].
+Qed.
+
+Lemma inv_step s l s' :
+  inv s -> inv_g s -> ws = true \/ step_ok s l = true -> step ws s l = Some s' -> inv s' /\ inv_g s'.
+Proof.
+  intros I G Hg H. destruct l.
+  - eapply step_StopBegin; eauto.
+  - eapply step_StopNoop; eauto.
+  - eapply step_Snapshot; eauto.
+  - eapply step_DisownTest; eauto.
+  - eapply step_DisownDone; eauto.
+  - eapply step_PostBegin; eauto.
+  - eapply step_PostEnd; eauto.
+  - eapply step_SpawnCheck; eauto.
+  - eapply step_SpawnInit; eauto.
+  - eapply step_SpawnAdd; eauto.
+  - eapply step_Reap; eauto.
+Qed.
+(* ---- the same cases for the unguarded part alone (no race-freedom hypothesis) *)
+Lemma step_StopBegin_u s a s' :
+  inv s -> step ws s (LStopBegin a) = Some s' -> inv s'.
+Proof.
+  intros I. unfold step. destruct (sp (acts s a)) eqn:Esp; try discriminate.
+  destruct (running (acts s a)) eqn:Er; [|discriminate]. intros [= <-].
+  pose proof (inv_pa _ I a) as Pa. old Pa.
+  assert (Hnd : ~ done_ (trace s) a) by (intros Hd; apply O5 in Hd; destruct Hd; congruence).
+    apply inv_upd1; simpl; auto. split; simpl; intros; try discriminate; try congruence; auto; try contradiction.
+    destruct (O8 H) as [?|?]; [congruence|contradiction].
+
+Qed.
+
+Lemma step_StopNoop_u s a s' :
+  inv s -> step ws s (LStopNoop a) = Some s' -> inv s'.
+Proof.
+  intros I. unfold step. destruct (sp (acts s a)); try discriminate.
+  destruct (running (acts s a)); [discriminate|]. intros [= <-]. auto.
+Qed.
+
+Lemma step_Snapshot_u s a s' :
+  inv s -> step ws s (LSnapshot a) = Some s' -> inv s'.
+Proof.
+  intros I. unfold step. destruct (sp (acts s a)) eqn:Esp; try discriminate. intros [= <-].
+  pose proof (inv_pa _ I a) as Pa. old Pa.
+  assert (Hr : running (acts s a) = true) by (apply O3; congruence).
+  assert (Hnd : ~ done_ (trace s) a) by (intros Hd; apply O5 in Hd; destruct Hd; congruence).
+    apply inv_upd1; simpl; auto.
+    + split; simpl; intros; try discriminate; try congruence; auto; try contradiction.
+      * apply O1; congruence.
+      * injection H as <-. now rewrite todo_keys in H0.
+      * destruct (O8 H) as [?|?]; [congruence|contradiction].
+    + intros d Hin. right. unfold children in Hin. apply filter_In in Hin as [_ Hreg].
+      apply (pa_reg _ _ _ (inv_pa _ I d)), Hreg.
+Qed.
+
+Lemma step_DisownTest_u s a c s' :
+  inv s -> step ws s (LDisownTest a c) = Some s' -> inv s'.
+Proof.
+  intros I. unfold step. destruct (sp (acts s a)) as [| |p|] eqn:Esp; try discriminate.
+  destruct (pend_get c p) as [[|]|] eqn:Eg; try discriminate. intros [= <-].
+  pose proof (inv_pa _ I a) as Pa. old Pa.
+  pose proof (pend_get_in _ _ _ Eg) as Hcp.
+  set (call := is_running (acts s c) || ws && stopping (acts s c)).
+  set (p' := if call then pend_set c PWait p else pend_remove c p).
+  assert (Hkeys : forall d, In d (map fst p') -> In d (map fst p)).
+  { intros d. unfold p'. destruct call; [now rewrite pend_set_keys|]. intros H. now apply pend_remove_keys in H. }
+    apply inv_upd1; simpl; auto.
+    split; simpl; intros; try discriminate; auto.
+    + apply O1; congruence.
+    + apply O3; congruence.
+    + injection H as <-. eapply O6; eauto.
+    + destruct (O8 H) as [?|?]; [congruence|auto].
+Qed.
+
+Lemma step_DisownDone_u s a c s' :
+  inv s -> step ws s (LDisownDone a c) = Some s' -> inv s'.
+Proof.
+  intros I. unfold step. destruct (sp (acts s a)) as [| |p|] eqn:Esp; try discriminate.
+  destruct (pend_get c p) as [[|]|] eqn:Eg; try discriminate.
+  destruct (sp (acts s c)) eqn:Espc; try discriminate.
+  destruct (running (acts s c)) eqn:Erc; [discriminate|]. intros [= <-].
+  pose proof (inv_pa _ I a) as Pa. old Pa.
+  pose proof (pend_get_in _ _ _ Eg) as Hcp.
+    apply inv_upd1; simpl; auto.
+    split; simpl; intros; try discriminate; auto.
+    + apply O1; congruence.
+    + apply O3; congruence.
+    + injection H as <-. apply pend_remove_keys in H0 as [H0 _]. eapply O6; eauto.
+    + destruct (O8 H) as [?|?]; [congruence|auto].
+Qed.
+
+Lemma step_PostBegin_u s a s' :
+  inv s -> step ws s (LPostBegin a) = Some s' -> inv s'.
+Proof.
+  intros I. unfold step. destruct (sp (acts s a)) as [| |[|]|] eqn:Esp; try discriminate. intros [= <-].
+  pose proof (inv_pa _ I a) as Pa. old Pa.
+  assert (Hr : running (acts s a) = true) by (apply O3; congruence).
+  assert (Hnd : ~ done_ (trace s) a) by (intros Hd; apply O5 in Hd; destruct Hd; congruence).
+  assert (Hnb : ~ In (EPostB a) (trace s)) by (intros Hb; destruct (O8 Hb); [congruence|contradiction]).
+  assert (Hnd' : ~ done_ (EPostB a :: trace s) a) by (unfold done_; simpl; intros [?|?]; [discriminate|contradiction]).
+    apply inv_upd1_ev; simpl; auto.
+    split; simpl; intros; try discriminate; try contradiction; auto.
+    + apply O1; congruence.
+    + congruence.
+Qed.
+
+Lemma step_PostEnd_u s a s' :
+  inv s -> step ws s (LPostEnd a) = Some s' -> inv s'.
+Proof.
+  intros I. unfold step. destruct (sp (acts s a)) eqn:Esp; try discriminate. intros [= <-].
+  pose proof (inv_pa _ I a) as Pa. old Pa.
+  assert (Hr : running (acts s a) = true) by (apply O3; congruence).
+  assert (Hnd : ~ done_ (trace s) a) by (intros Hd; apply O5 in Hd; destruct Hd; congruence).
+  assert (Hd' : done_ (EPostE a :: trace s) a) by (left; reflexivity).
+    apply inv_upd1_ev; simpl; auto.
+    split; simpl; intros; try discriminate; try congruence; auto.
+Qed.
+
+Lemma step_SpawnCheck_u s p c s' :
+  inv s -> step ws s (LSpawnCheck p c) = Some s' -> inv s'.
+Proof.
+  intros I. unfold step. destruct (par (acts s c)) eqn:Epar; try discriminate.
+  destruct (ph (acts s c)) eqn:Eph; try discriminate.
+  destruct (is_running (acts s p) && negb (started (acts s c)) && negb (c =? 0) && negb (c =? p)) eqn:E; [|discriminate].
+  intros [= <-].
+  apply andb_true_iff in E as [E Ecp]. apply andb_true_iff in E as [E Ec0]. apply andb_true_iff in E as [Erp Est].
+  apply negb_true_iff in Est. apply negb_true_iff, Nat.eqb_neq in Ecp.
+  pose proof (inv_pa _ I c) as Pc. old Pc.
+  assert (Hnd : ~ done_ (trace s) c) by (intros Hd; apply O5 in Hd; destruct Hd; congruence).
+  set (xc := Actor false false false SIdle (Some p) (Some Checked) 0 false [] []).
+  set (s1 := St (upd (acts s) c xc) (trace s) (term s)).
+  assert (I1 : inv s1).
+  { apply inv_upd1; simpl; auto; [|congruence].
+    split; simpl; intros; try discriminate; try congruence; try contradiction; auto.
+    + apply O7 in H; congruence.
+    + destruct (O8 H) as [Hs|?]; [|contradiction].
+      assert (running (acts s c) = true) by (apply O3; congruence). rewrite O12 in Est; congruence. }
+  assert (Hcore : forall c0, same_core (acts s1 c0) (upd (upd (acts s) c xc) p (set_spawning (acts s p) (S (spawning (acts s p)))) c0)).
+  { intros c0. simpl. destruct (Nat.eq_dec c0 p) as [->|Hne].
+    - rewrite upd_same, upd_other by auto. unfold same_core; simpl; tauto.
+    - rewrite (upd_other _ p) by assumption. apply same_core_refl. }
+  apply (inv_core s1 _ _ I1 Hcore).
+Qed.
+
+Lemma step_SpawnInit_u s c s' :
+  inv s -> step ws s (LSpawnInit c) = Some s' -> inv s'.
+Proof.
+  intros I. unfold step. destruct (ph (acts s c)) as [[|]|] eqn:Eph; try discriminate. intros [= <-].
+  pose proof (inv_pa _ I c) as Pc. old Pc.
+  assert (Est : started (acts s c) = false) by auto.
+  assert (Hnd : ~ done_ (trace s) c) by (intros Hd; apply O5 in Hd; destruct Hd; congruence).
+  assert (Hnp : ~ In (EPre c) (trace s)) by (intros Hp; apply O7 in Hp; congruence).
+  assert (Hnd' : ~ done_ (EPre c :: trace s) c) by (unfold done_; simpl; intros [?|?]; [discriminate|contradiction]).
+    apply inv_upd1_ev; simpl; auto.
+    split; simpl; intros; try discriminate; try congruence; try contradiction; auto.
+
+    destruct H as [?|H]; [discriminate|]. destruct (O8 H) as [Hs|?]; [|contradiction].
+    assert (running (acts s c) = true) by (apply O3; congruence). rewrite O12 in Est; congruence.
+Qed.
+
+Lemma step_SpawnAdd_u s c s' :
+  inv s -> step ws s (LSpawnAdd c) = Some s' -> inv s'.
+Proof.
+  intros I. unfold step. destruct (ph (acts s c)) as [[|]|] eqn:Eph; try discriminate.
+  destruct (par (acts s c)) as [p|] eqn:Epar; try discriminate. intros [= <-].
+  pose proof (inv_pa _ I c) as Pc. old Pc. cbv zeta. rewrite ?Epar.
+  set (xc := Actor (running (acts s c)) (stopping (acts s c)) (started (acts s c)) (sp (acts s c)) (Some p) None
+                   (spawning (acts s c)) (reg (acts s p)) (kids (acts s c)) (snap (acts s c))).
+  set (s1 := St (upd (acts s) c xc) (trace s) (term s)).
+  assert (I1 : inv s1).
+  { apply inv_upd1; simpl; auto. split; simpl; intros; try discriminate; eauto. }
+  match goal with |- inv (St ?A _ _) => assert (Hcore : forall c0, same_core (acts s1 c0) (A c0)) end.
+  { intros c0. simpl. destruct (Nat.eq_dec c0 p) as [->|Hne].
+    - rewrite upd_same. unfold same_core; simpl; repeat split; auto.
+    - rewrite (upd_other _ p) by assumption. apply same_core_refl. }
+  apply (inv_core s1 _ _ I1 Hcore).
+Qed.
+
+Lemma step_Reap_u s a s' :
+  inv s -> step ws s (LReap a) = Some s' -> inv s'.
+Proof.
+  intros I. unfold step. destruct (term s) as [|a' rest]; [discriminate|].
+  destruct (a =? a'); [|discriminate]. intros [= <-].
+  match goal with |- inv (St ?A _ _) => assert (Hcore : forall c0, same_core (acts s c0) (A c0)) end.
+  { intros c0. destruct (reg (acts s a)); [|apply same_core_refl].
+    set (A1 := unreg_all (acts s) _).
+    assert (H1 : same_core (acts s c0) (A1 c0)) by apply unreg_all_core.
+    destruct (par (acts s a)) as [p|]; [|exact H1].
+    destruct (Nat.eq_dec c0 p) as [->|Hne].
+    - rewrite upd_same. eapply same_core_trans; [exact H1|]. unfold same_core; simpl; tauto.
+    - now rewrite upd_other by assumption. }
+  apply (inv_core s _ _ I Hcore).
+Qed.
+
+Lemma inv_step_u s l s' : inv s -> step ws s l = Some s' -> inv s'.
+Proof.
+  intros I H. destruct l.
+  - eapply step_StopBegin_u; eauto.
+  - eapply step_StopNoop_u; eauto.
+  - eapply step_Snapshot_u; eauto.
+  - eapply step_DisownTest_u; eauto.
+  - eapply step_DisownDone_u; eauto.
+  - eapply step_PostBegin_u; eauto.
+  - eapply step_PostEnd_u; eauto.
+  - eapply step_SpawnCheck_u; eauto.
+  - eapply step_SpawnInit_u; eauto.
+  - eapply step_SpawnAdd_u; eauto.
+  - eapply step_Reap_u; eauto.
+Qed.
+End Steps.
+
+(* ---------------------------------------------------------------- reachability *)
+(* guarded reachability: every step is race-free, or the disown test is the repaired one *)
+Inductive reach_g (ws : bool) : st -> Prop :=
+| reach_g_init : reach_g ws init
+| reach_g_step s l s' : reach_g ws s -> (ws = true \/ step_ok s l = true) -> step ws s l = Some s' -> reach_g ws s'.
+
+Lemma reach_rf_g ws s : reach_rf ws s -> reach_g ws s.
+Proof. induction 1; [constructor|econstructor; eauto]. Qed.
+Lemma reach_fixed_g s : reach true s -> reach_g true s.
+Proof. induction 1; [constructor|econstructor; eauto]. Qed.
+
+Lemma reach_inv ws s : reach ws s -> inv s.
+Proof. induction 1; [apply inv_init|eapply inv_step_u; eauto]. Qed.
+Lemma reach_g_inv ws s : reach_g ws s -> inv s /\ inv_g s.
+Proof.
+  induction 1; [apply inv_init|]. destruct IHreach_g. eapply inv_step; eauto.
+Qed.
+
+(* ---------------------------------------------------------------- theorems *)
+
+(* Exactly-once: in every reachable state (no guard, any interleaving) no lifecycle event
+   occurs twice: PreStart, PostStop-begin and PostStop-end happen at most once per actor. *)
+Theorem events_at_most_once ws s : reach ws s -> NoDup (trace s).
+Proof. intros H. apply (inv_nodup _ (reach_inv _ _ H)). Qed.
+
+(* A stopped actor is never running again, and PostStop-end implies PostStop ran for a started actor *)
+Theorem poststop_means_stopped ws s c : reach ws s -> In (EPostE c) (trace s) ->
+  running (acts s c) = false /\ started (acts s c) = true.
+Proof. intros H. apply (pa_n _ _ _ (inv_pa _ (reach_inv _ _ H) c)). Qed.
+
+(* every started actor that is not running had its PostStop completed (no actor is dropped
+   without its hook) *)
+Theorem stopped_means_poststop ws s c : reach ws s ->
+  started (acts s c) = true -> running (acts s c) = false -> In (EPostE c) (trace s).
+Proof. intros H. apply (pa_k _ _ _ (inv_pa _ (reach_inv _ _ H) c)). Qed.
+
+(* children first: at the moment PostStop of [a] begins, PostStop of every child that
+   freeChildren read has completed *)
+Theorem children_first_g ws s a s' : reach_g ws s -> step ws s (LPostBegin a) = Some s' ->
+  forall c, In c (snap (acts s a)) -> In (EPostE c) (trace s).
+Proof.
+  intros H Hs c Hin. destruct (reach_g_inv _ _ H) as [I G].
+  unfold step in Hs. destruct (sp (acts s a)) as [| |[|]|] eqn:Esp; try discriminate.
+  destruct (pg_a _ _ _ (G a) [] c Esp Hin) as [[]|Hd]. exact Hd.
+Qed.
+
+Lemma chain_done s a d : inv_g s -> done_ (trace s) a -> chain s a d -> done_ (trace s) d.
+Proof.
+  intros G Ha Hc. induction Hc as [a d Hin|a c d Hin Hc IH].
+  - apply (pg_j _ _ _ (G a) d Ha Hin).
+  - apply IH. apply (pg_j _ _ _ (G a) c Ha Hin).
+Qed.
+
+(* ... and of every descendant along the snapshot chain *)
+Theorem descendants_first_g ws s a s' : reach_g ws s -> step ws s (LPostBegin a) = Some s' ->
+  forall d, chain s a d -> In (EPostE d) (trace s).
+Proof.
+  intros H Hs d Hc. destruct (reach_g_inv _ _ H) as [I G].
+  pose proof (children_first_g _ _ _ _ H Hs) as Hcf.
+  destruct Hc as [a d Hin|a c d Hin Hc]; [auto|].
+  eapply chain_done; eauto. apply Hcf, Hin.
+Qed.
+
+(* stopped on return: right after PostStop of [a] ended (Shutdown returns nil immediately
+   after), a and every descendant along the snapshot chain are not running and stay so *)
+Theorem stopped_on_return_g ws s a s' : reach_g ws s -> step ws s (LPostEnd a) = Some s' ->
+  running (acts s' a) = false /\
+  forall d, chain s' a d -> running (acts s' d) = false /\ In (EPostE d) (trace s').
+Proof.
+  intros H Hs.
+  assert (H' : reach_g ws s') by (apply (reach_g_step ws s (LPostEnd a) s' H); [right; reflexivity|exact Hs]).
+  destruct (reach_g_inv _ _ H') as [I' G'].
+  assert (Hda : done_ (trace s') a).
+  { unfold step in Hs. destruct (sp (acts s a)); try discriminate. injection Hs as <-. left. reflexivity. }
+  split; [apply (pa_n _ _ _ (inv_pa _ I' a) Hda)|].
+  intros d Hc. pose proof (chain_done _ _ _ G' Hda Hc) as Hd.
+  split; [apply (pa_n _ _ _ (inv_pa _ I' d) Hd)|exact Hd].
+Qed.
+
+(* the order among the events themselves: PostStop-end of a snapshot child is older in the
+   trace than PostStop-begin of its parent *)
+Fixpoint older (x y : ev) (tr : list ev) : Prop :=   (* x happened before y; trace is newest first *)
+  match tr with
+  | [] => False
+  | e :: tr' => (e = y /\ In x tr') \/ older x y tr'
+  end.
+
+Lemma older_cons x y e tr : older x y tr -> older x y (e :: tr).
+Proof. simpl. auto. Qed.
+
+Definition order_ok (s : st) : Prop :=
+  forall a c, In (EPostB a) (trace s) -> In c (snap (acts s a)) -> older (EPostE c) (EPostB a) (trace s).
+
+(* the snapshot of an actor whose PostStop began does not change any more *)
+Lemma postb_snap_stable ws s l s' a :
+  inv s -> step ws s l = Some s' -> In (EPostB a) (trace s) -> snap (acts s' a) = snap (acts s a).
+Proof.
+  intros I Hs Hb. pose proof (inv_pa _ I a) as Pa.
+  assert (Hsp : sp (acts s a) = SPost \/ (running (acts s a) = false /\ started (acts s a) = true)).
+  { destruct (pa_postb _ _ _ Pa Hb) as [?|Hd]; [auto|right; apply (pa_n _ _ _ Pa Hd)]. }
+  destruct l; unfold step in Hs; simpl in Hs.
+  - destruct (sp (acts s a0)) eqn:E; try discriminate. destruct (running (acts s a0)) eqn:Er; [|discriminate].
+    injection Hs as <-. simpl. destruct (Nat.eq_dec a a0) as [->|]; [now rewrite upd_same|now rewrite upd_other].
+  - destruct (sp (acts s a0)); try discriminate. destruct (running (acts s a0)); [discriminate|]. now injection Hs as <-.
+  - destruct (sp (acts s a0)) eqn:E; try discriminate. injection Hs as <-. simpl.
+    destruct (Nat.eq_dec a a0) as [->|]; [|now rewrite upd_other].
+    exfalso. destruct Hsp as [?|[Hr _]]; [congruence|].
+    rewrite (pa_run _ _ _ Pa) in Hr; congruence.
+  - destruct (sp (acts s a0)) eqn:E; try discriminate. destruct (pend_get c p) as [[|]|]; try discriminate.
+    injection Hs as <-. simpl. destruct (Nat.eq_dec a a0) as [->|]; [now rewrite upd_same|now rewrite upd_other].
+  - destruct (sp (acts s a0)) eqn:E; try discriminate. destruct (pend_get c p) as [[|]|]; try discriminate.
+    destruct (sp (acts s c)); try discriminate. destruct (running (acts s c)); [discriminate|].
+    injection Hs as <-. simpl. destruct (Nat.eq_dec a a0) as [->|]; [now rewrite upd_same|now rewrite upd_other].
+  - destruct (sp (acts s a0)) as [| |[|]|] eqn:E; try discriminate.
+    injection Hs as <-. simpl. destruct (Nat.eq_dec a a0) as [->|]; [now rewrite upd_same|now rewrite upd_other].
+  - destruct (sp (acts s a0)) eqn:E; try discriminate.
+    injection Hs as <-. simpl. destruct (Nat.eq_dec a a0) as [->|]; [now rewrite upd_same|now rewrite upd_other].
+  - destruct (par (acts s c)) eqn:Ep; try discriminate. destruct (ph (acts s c)) eqn:Eh; try discriminate.
+    destruct (is_running (acts s p) && negb (started (acts s c)) && negb (c =? 0) && negb (c =? p)) eqn:E; [|discriminate].
+    injection Hs as <-. simpl.
+    apply andb_true_iff in E as [E _]. apply andb_true_iff in E as [E _]. apply andb_true_iff in E as [_ Est].
+    apply negb_true_iff in Est.
+    assert (a <> c).
+    { intros ->. destruct Hsp as [Hp|[_ ?]]; [|congruence].
+      assert (running (acts s c) = true) by (apply (pa_run _ _ _ Pa); congruence).
+      rewrite (pa_run_started _ _ _ Pa) in Est; congruence. }
+    destruct (Nat.eq_dec a p) as [->|]; [rewrite upd_same; reflexivity|].
+    rewrite upd_other, upd_other; auto.
+  - destruct (ph (acts s c)) as [[|]|] eqn:Eh; try discriminate. injection Hs as <-. simpl.
+    destruct (Nat.eq_dec a c) as [->|]; [|now rewrite upd_other].
+    exfalso. pose proof (pa_chk _ _ _ Pa Eh) as Est.
+    destruct Hsp as [Hp|[_ ?]]; [|congruence].
+    assert (running (acts s c) = true) by (apply (pa_run _ _ _ Pa); congruence).
+    rewrite (pa_run_started _ _ _ Pa) in Est; congruence.
+  - destruct (ph (acts s c)) as [[|]|] eqn:Eh; try discriminate.
+    destruct (par (acts s c)) as [p|] eqn:Ep; try discriminate. injection Hs as <-. simpl.
+    destruct (Nat.eq_dec a p) as [->|].
+    + rewrite upd_same. simpl. destruct (Nat.eq_dec p c) as [->|]; [now rewrite upd_same|now rewrite upd_other].
+    + rewrite upd_other by assumption. destruct (Nat.eq_dec a c) as [->|]; [now rewrite upd_same|now rewrite upd_other].
+  - destruct (term s) as [|a' rest]; [discriminate|]. destruct (a0 =? a'); [|discriminate]. injection Hs as <-. simpl.
+    destruct (reg (acts s a0)); [|reflexivity].
+    set (A1 := unreg_all (acts s) _).
+    assert (H1 : snap (A1 a) = snap (acts s a)) by (destruct (unreg_all_core (subtree (length (kids (acts s a0)) + 64) (acts s) a0) (acts s) a) as (_&_&_&_&_&?&_); assumption).
+    destruct (par (acts s a0)) as [p|]; [|exact H1].
+    destruct (Nat.eq_dec a p) as [->|]; [rewrite upd_same; exact H1|now rewrite upd_other].
+Qed.
+
+Lemma trace_grows ws s l s' e : step ws s l = Some s' -> In e (trace s) -> In e (trace s').
+Proof.
+  intros Hs Hin. destruct l; unfold step in Hs; simpl in Hs;
+  repeat match type of Hs with
+  | match ?x with _ => _ end = Some _ => destruct x eqn:?; try discriminate
+  | (if ?x then _ else _) = Some _ => destruct x eqn:?; try discriminate
+  end; injection Hs as <-; simpl; auto.
+Qed.
+
+Lemma trace_step ws s l s' : step ws s l = Some s' ->
+  trace s' = trace s \/ exists e, trace s' = e :: trace s.
+Proof.
+  intros Hs. destruct l; unfold step in Hs; simpl in Hs;
+  repeat match type of Hs with
+  | match ?x with _ => _ end = Some _ => destruct x eqn:?; try discriminate
+  | (if ?x then _ else _) = Some _ => destruct x eqn:?; try discriminate
+  end; injection Hs as <-; simpl; eauto.
+Qed.
+
+Theorem order_g ws s : reach_g ws s -> order_ok s.
+Proof.
+  induction 1 as [|s l s' Hr IH Hg Hs].
+  - intros a c []. 
+  - destruct (reach_g_inv _ _ Hr) as [I G].
+    intros a c Hb Hin.
+    destruct (trace_step _ _ _ _ Hs) as [Et|[e Et]].
+    + rewrite Et in *. rewrite (postb_snap_stable _ _ _ _ _ I Hs Hb) in Hin. apply IH; assumption.
+    + rewrite Et in *. destruct Hb as [->|Hb].
+      * (* this step is PostBegin a *)
+        assert (l = LPostBegin a) as ->.
+        { destruct l; unfold step in Hs; simpl in Hs;
+          repeat match type of Hs with
+          | match ?x with _ => _ end = Some _ => destruct x eqn:?; try discriminate
+          | (if ?x then _ else _) = Some _ => destruct x eqn:?; try discriminate
+          end; injection Hs as <-; simpl in Et; try (exfalso; revert Et; clear; intros Et; induction (trace s); congruence);
+          injection Et as ?; congruence. }
+        simpl. left. split; [reflexivity|].
+        assert (Hsn : snap (acts s' a) = snap (acts s a)).
+        { unfold step in Hs. destruct (sp (acts s a)) as [| |[|]|]; try discriminate. injection Hs as <-. simpl. now rewrite upd_same. }
+        rewrite Hsn in Hin. eapply children_first_g; eauto.
+      * rewrite (postb_snap_stable _ _ _ _ _ I Hs Hb) in Hin. apply older_cons. apply IH; assumption.
 Qed.
